@@ -1,5 +1,5 @@
 (* C14 — DAG: failures, skips and cancellation stop dependents and are fully reported. *)
-From GO Require Import Base.Str Model.Tree Model.Dag Proofs.DagHold Proofs.DagInv.
+From GO Require Import Base.Str Model.Tree Model.Dag Proofs.DagHold Proofs.DagInv Proofs.DagBuild Proofs.DagReport.
 
 (* once an error entry is recorded -- a task's final attempt failed, or the cancellation was
    noticed -- no further task thread is created: nothing is started, dependents included *)
@@ -48,3 +48,70 @@ Theorem C14_done_accounted :
     In c (d_okdone st) \/ d_errs st <> [] \/ In c (d_marked st) \/ In c (d_sp st).
 Proof. intros g cf st I. exact (m_done g cf st I). Qed.
 Print Assumptions C14_done_accounted.
+
+(* ---- the report: for every graph the construction API can build, every schedule, every state ---- *)
+
+(* when everything is done (the state in which Run returns) every vertex is accounted for: its
+   thread ran to the end (it returned nil, or ErrorSkipParents, or its error is in the list) and it is
+   not reported as skipped; or it never got a thread, its error is not in the list, and either it
+   was skipped through ErrorSkipParents and is NOT reported, or it is reported as skipped *)
+Theorem C14_fully_reported :
+  forall ops cf ls st,
+    let g := build_graph ops in
+    dsteps g cf (init_state []) ls = Some st -> all_done g st = true -> forall v, In v (vids g) ->
+    (d_thread st v = Gone /\ (In v (d_okdone st) \/ In v (d_sp st) \/ In (XTask v) (d_errs st)) /\ ~ In (XSkipped v) (d_errs st)) \/
+    (d_thread st v = NotSpawned /\ ~ In (XTask v) (d_errs st) /\
+     ((In v (d_marked st) /\ ~ In (XSkipped v) (d_errs st)) \/ (~ In v (d_marked st) /\ In (XSkipped v) (d_errs st)))).
+Proof. exact built_fully_reported. Qed.
+Print Assumptions C14_fully_reported.
+
+(* every entry of the list has a cause, and there is one entry per cause: the cancellation once it
+   was noticed; a task whose completion was received and that returned neither nil nor
+   ErrorSkipParents; a vertex that never got a thread and was not marked by ErrorSkipParents *)
+Theorem C14_entries_justified :
+  forall ops cf ls st,
+    let g := build_graph ops in
+    dsteps g cf (init_state []) ls = Some st ->
+    NoDup (d_errs st) /\ forall e, In e (d_errs st) ->
+      (e = XCancel /\ d_handled st = true) \/
+      (exists v, e = XTask v /\ d_thread st v = Gone /\ ~ In v (d_okdone st) /\ ~ In v (d_sp st)) \/
+      (exists v, e = XSkipped v /\ d_thread st v = NotSpawned /\ ~ In v (d_marked st) /\ In v (vids g)).
+Proof. exact built_entries_justified. Qed.
+Print Assumptions C14_entries_justified.
+
+(* Run returns nil exactly when the cancellation was never noticed and every task ran to nil,
+   returned ErrorSkipParents, or was skipped through ErrorSkipParents *)
+Theorem C14_nil_iff :
+  forall ops cf ls st,
+    let g := build_graph ops in
+    dsteps g cf (init_state []) ls = Some st -> all_done g st = true ->
+    (d_errs st = [] <-> d_handled st = false /\ forall v, In v (vids g) -> In v (d_okdone st) \/ In v (d_sp st) \/ In v (d_marked st)).
+Proof. exact built_nil_iff. Qed.
+Print Assumptions C14_nil_iff.
+
+(* no task that (transitively) depends on a failed task is ever started: in every state in which the
+   failure is in the list (it stays there: C14_errors_only_grow) the dependent has no thread *)
+Theorem C14_failed_blocks_dependents :
+  forall ops cf ls st v p,
+    let g := build_graph ops in
+    dsteps g cf (init_state []) ls = Some st -> In (XTask v) (d_errs st) -> depends_on g p v -> d_thread st p = NotSpawned.
+Proof. exact built_failed_blocks_dependents. Qed.
+Print Assumptions C14_failed_blocks_dependents.
+
+Theorem C14_errors_only_grow :
+  forall g cf st l st', dstep g cf st l = Some st' -> exists suf, d_errs st' = d_errs st ++ suf.
+Proof. exact errs_grow. Qed.
+Print Assumptions C14_errors_only_grow.
+
+(* a failed last attempt is recorded when its completion is received; ErrorSkipParents is not *)
+Theorem C14_failure_recorded :
+  forall g cf st v st',
+    dstep g cf st (LRecvReal v) = Some st' -> d_thread st v = Finished OErr -> In (XTask v) (d_errs st').
+Proof. exact failure_recorded. Qed.
+Print Assumptions C14_failure_recorded.
+
+Theorem C14_skip_parents_is_no_failure :
+  forall g cf st v st',
+    dstep g cf st (LRecvReal v) = Some st' -> d_thread st v = Finished OSkipParents -> d_errs st' = d_errs st.
+Proof. exact skip_parents_is_no_failure. Qed.
+Print Assumptions C14_skip_parents_is_no_failure.
